@@ -147,7 +147,9 @@ func checkInv(d []string) string {
 			if !ok {
 				return "user " + u + " lists unknown channel " + c
 			}
-			if !contains(ul, u) {
+			// (the dump joins list elements with 0x01, so a list holding exactly the empty name — a hostile
+			// "NICK :" renames a user to "" — renders like the empty list; that one case is ambiguous, not wrong)
+			if !contains(ul, u) && !(u == "" && len(ul) == 0) {
 				return "user " + u + " lists " + c + " but the channel does not list the user"
 			}
 		}
